@@ -94,3 +94,15 @@ def run_edges(ctx, pid, nr, pmax=2):
     ctx.sample({'mc_edges_input': {'volt_rise': [2, 2, 1, 2][:nr], 'volt_decay': [2, 2, 2, 1][:nr], 'period': [1, 1, 2, 1][:nr], 'thresholds': '1/2', 'min_n_cycles': 1},
                 'space': 'all tables of %d cycles (rise, decay, period in 1..2, interior cycles optionally blocked) x thresholds {1/3,1/2} x min_n_cycles {1,2} x centring' % nr})
     return res
+
+
+def run_pipeline(ctx, pid, ns, v, ne=8):
+    tab, n = ixf.pipeline_table(ns, v, ne)
+    res = _run(ctx, pid, 'MC_Pipeline', 'MC_Pipeline(N=%d,V=%d,extrema=%d)' % (ns, v, ne), {'NS': ns, 'V': v, 'NE': ne},
+               ['InvTableWF', 'InvShapeWF', 'InvEndsNaN', 'InvEndsNotBurst', 'InvMirrorRows'], tab, n,
+               lambda d: 'compute_features end to end on signal %s with extrema (peak, trough, ...) at %s, peak-centred=%s: specification (flat table) %s, implementation %s'
+               % (d[3], d[4], d[5], d[6], d[7]))
+    ctx.nontrivial += n
+    ctx.sample({'mc_pipeline_input': {'sig': [0, 1, 0, 1, 1, 0, 1, 0, 1, 0][:ns], 'extrema': list(range(1, 9)), 'centre': 'trough'},
+                'space': 'all signals [0..%d -> 0..%d] x all ascending %d-tuples of extrema (peak first) x both centrings, thresholds 1/4, 1/2, 1/2, 1/2, min_n_cycles 1' % (ns - 1, v, ne)})
+    return res
